@@ -121,6 +121,30 @@ public:
         if (ab) throw SimAbort();
     }
 
+    // the current thread cannot proceed (it spins on a lock another simulator thread holds): let another
+    // runnable thread advance; false = nobody else can run (deadlock) or the run is being aborted
+    bool yield_other() {
+        if (!ch) return false;
+        int next;
+        {
+            IgnoreGuard ig;
+            check_budget();
+            if (aborting) return false;
+            int cand[256]; int n = 0;
+            for (auto *t : threads) {
+                if (t->id == cur || n >= 256) continue;
+                if (t->state == SimThread::RUNNABLE) cand[n++] = t->id;
+                else if (t->state == SimThread::BLOCKED && t->cond(t->cond_arg)) cand[n++] = t->id;
+            }
+            if (n == 0) { start_abort("deadlock"); return false; }
+            next = cand[ch->choose((uint32_t) n, T_NEXT)];
+        }
+        switch_to(next);
+        bool ab; { IgnoreGuard ig; ab = aborting; }
+        return !ab;
+    }
+    bool on_sim_thread() const { return ch != nullptr; }
+
     // block until cond(arg) holds; false = the run is being aborted
     bool wait_until(bool (*cond)(void*), void *arg) {
         if (!ch) return cond(arg);
@@ -255,6 +279,28 @@ private:
 
 #ifdef SIM_SCHED_DEFINE
 thread_local ProcCtx *tl_proc = nullptr;
+thread_local int tl_in_mutex_wrap = 0;
+#else
+extern thread_local int tl_in_mutex_wrap;
 #endif
 
 } // namespace sim
+
+#ifdef SIM_SCHED_DEFINE
+// std::mutex / pthread mutexes used by library code inside tasks (link with -Wl,--wrap=pthread_mutex_lock):
+// acquiring a mutex is a scheduling point, and a mutex held by a parked simulator thread is waited for
+// cooperatively - a real blocking lock would stall the whole single-baton simulation.
+extern "C" int __real_pthread_mutex_lock(pthread_mutex_t *m);
+extern "C" int __wrap_pthread_mutex_lock(pthread_mutex_t *m) {
+    sim::Sched &s = sim::Sched::get();
+    if (!s.on_sim_thread() || sim::tl_in_mutex_wrap) return __real_pthread_mutex_lock(m);
+    sim::tl_in_mutex_wrap++;
+    struct Leave { ~Leave() { sim::tl_in_mutex_wrap--; } } leave;
+    s.yield();
+    while (pthread_mutex_trylock(m) != 0) {
+        if (!s.yield_other()) throw sim::SimAbort();
+    }
+    return 0;
+}
+#endif
+
